@@ -473,8 +473,16 @@ def run_c23(ctx):
     # two processes one after the other: the second starts after the first one's logger stopped / after it was killed
     scfg = cfg_text([A, S, A | S], ctx.pick(6, 8), 2, crashes="never", sessions=2, **pol, **full)
     ccfg = cfg_text([A, S, A | S], ctx.pick(6, 8), 2, crashes="point", sessions=2, **pol, **full)
+    # idle logs: a `once` log writes at its first run and is then quiet through every later flush; alone and next to a busy log
+    # (size thresholds 0 / never only: HSize is the header size of the `always` log, the `once` header is shorter)
+    O = {"once"}
+    idle = dict(keeps=[0, 1, 2], cycles=[0, 1, 2], sizes=[0, LARGE], flushes=[2, 4], reuses=[False, True])
+    nidle = ctx.pick(80, 600)
+    prefo = env.subdir("c23simo") + "/sim"
+    # no environment steps (MaxEnv 0): nobody bids the logger to stop, so only the periodic flush makes the record durable
+    ocfg = cfg_text([O, O | A], ctx.pick(6, 8), 0, crashes="point", sessions=1, **pol, **idle)
     total = covered = steps = ncrash = 0
-    with ThreadPoolExecutor(max_workers=6) as tp:
+    with ThreadPoolExecutor(max_workers=7) as tp:
         f_mc = [(n, tp.submit(tlc.run, "LogRotate", c, spec_dir=SPEC_DIR, deadlock=False, tag="c23mc" + n, workers=max(1, ncpu // 4), timeout=TLC_TIMEOUT))
                 for n, c in mcs]
         dots = {n: env.subdir("c23") + "/%s.dot" % n for n, _ in graphs}
@@ -484,6 +492,8 @@ def run_c23(ctx):
                           simulate={"num": nsim, "depth": ctx.pick(150, 180), "file": pref}, seed=ctx.seed + 3, tag="c23sim", timeout=TLC_TIMEOUT)
         f_simc = tp.submit(tlc.run, "LogRotate", ccfg, spec_dir=SPEC_DIR, deadlock=False, workers=1,
                            simulate={"num": ncr, "depth": ctx.pick(150, 180), "file": prefc}, seed=ctx.seed + 4, tag="c23simc", timeout=TLC_TIMEOUT)
+        f_simo = tp.submit(tlc.run, "LogRotate", ocfg, spec_dir=SPEC_DIR, deadlock=False, workers=1,
+                           simulate={"num": nidle, "depth": ctx.pick(150, 180), "file": prefo}, seed=ctx.seed + 5, tag="c23simo", timeout=TLC_TIMEOUT)
         for n, f in f_g:
             res = f.result()
             laps.lap("graph-tlc")
@@ -512,11 +522,13 @@ def run_c23(ctx):
         ctx.add_model(res, "LogRotate/simulate", {"num": nsim})
         res = f_simc.result()
         ctx.add_model(res, "LogRotate/simulate-crash", {"num": ncr})
+        res = f_simo.result()
+        ctx.add_model(res, "LogRotate/simulate-crash-idle", {"num": nidle})
         laps.lap("simulate-tlc")
 
         def load():
             a = replay.load_sim_traces(pref)
-            b = replay.load_sim_traces(prefc)
+            b = replay.load_sim_traces(prefc) + replay.load_sim_traces(prefo)
             return (a + [t for t in b if not has(t, "Crash")],          # (a new session may begin before the crash point)
                     [t for t in b if has(t, "Crash")])
 
@@ -526,21 +538,28 @@ def run_c23(ctx):
         def kinds(sims, crash):
             """what the simulated behaviours exercise (vacuity guards: counts of behaviours, independent of speed)"""
             pre = [t[i - 1][2] for t in crash for i in range(1, len(t)) if t[i][1][0] == "Crash"]
+            nobid = [t[i - 1][2] for t in crash for i in range(1, len(t)) if t[i][1][0] == "Crash" and not has(t[:i], "RBid")]
             return {"behaviours without crash": len(sims), "behaviours with crash": len(crash),
                     "second session rotating over reused files": sum(
                         1 for t in sims + crash if any(s[2]["session"] == 2 and s[2]["rotated"] > 0 and s[2]["rcfg"]["reuse"] for s in t[1:])),
                     "second session in a fresh directory": sum(
                         1 for t in sims + crash if any(s[2]["session"] == 2 and not s[2]["rcfg"]["reuse"] and s[2]["status"] != "stopped" for s in t[1:])),
                     "crash with unflushed data": sum(1 for st in pre if any(st["dur"][r][0] < len(st["ret"][r][0]) for r in st["ret"])),
-                    "crash after a rotation": sum(1 for st in pre if any(len(f) > 0 for r in st["ret"] for f in st["ret"][r][1:]))}
+                    "crash after a rotation": sum(1 for st in pre if any(len(f) > 0 for r in st["ret"] for f in st["ret"][r][1:])),
+                    # the `once` record is durable at the crash and nobody ever bid the logger to stop: a periodic flush came after
+                    # the run that wrote it, and the log was idle since
+                    "crash with a flushed idle log": sum(1 for st in nobid if "once" in st["ret"] and any(
+                        not e["h"] for e in st["ret"]["once"][0][:st["dur"]["once"][0]]))}
 
         want = {"behaviours without crash": nsim // 2, "behaviours with crash": ncr // 5, "second session rotating over reused files": 5,
-                "second session in a fresh directory": 5, "crash with unflushed data": 5, "crash after a rotation": 5}
+                "second session in a fresh directory": 5, "crash with unflushed data": 5, "crash after a rotation": 5,
+                "crash with a flushed idle log": 5}
         sims, crash = load()
         have = kinds(sims, crash)
         if any(have[k] < want[k] for k in want):
             # too few of some kind (an unlucky seed, or TLC wrote fewer files than asked): simulate once more, add to what there is
-            for cfgx, px, sd, tg in ((scfg, pref + "b", ctx.seed + 1003, "c23simb"), (ccfg, prefc + "b", ctx.seed + 1004, "c23simcb")):
+            for cfgx, px, sd, tg in ((scfg, pref + "b", ctx.seed + 1003, "c23simb"), (ccfg, prefc + "b", ctx.seed + 1004, "c23simcb"),
+                                     (ocfg, prefo + "b", ctx.seed + 1005, "c23simob")):
                 res = tlc.run("LogRotate", cfgx, spec_dir=SPEC_DIR, deadlock=False, workers=1, seed=sd, tag=tg, timeout=TLC_TIMEOUT,
                               simulate={"num": max(nsim, ncr), "depth": ctx.pick(150, 180), "file": px})
                 ctx.add_model(res, "LogRotate/simulate-again")
@@ -549,6 +568,7 @@ def run_c23(ctx):
             laps.lap("simulate-tlc")
         shutil.rmtree(os.path.dirname(pref), ignore_errors=True)
         shutil.rmtree(os.path.dirname(prefc), ignore_errors=True)
+        shutil.rmtree(os.path.dirname(prefo), ignore_errors=True)
         short = {k: have[k] for k in want if have[k] < want[k]}
         if any(v == 0 for v in short.values()):
             raise tlc.TlcError("vacuous simulation (after a second attempt): %r" % have)
@@ -583,7 +603,8 @@ def run_c23(ctx):
     ctx.extra.update({"graph_edges": total, "edges_replayed": covered, "steps_replayed": steps, "simulated_behaviours": len(sims),
                       "crash_scenarios_in_child_processes": ncrash + len(crash), "crash_scenarios_with_unflushed_data": lost,
                       "crash_scenarios_after_rotation": rot, "second_sessions_rotating_over_reused_files": second,
-                      "second_sessions_in_fresh_directory": fresh, "phase_wall_s": laps.d,
+                      "second_sessions_in_fresh_directory": fresh,
+                      "crash_scenarios_with_flushed_idle_log": have["crash with a flushed idle log"], "phase_wall_s": laps.d,
                       "distinct_nontrivial": covered + len(sims) + len(crash), "evaluations": steps})
 
 
